@@ -11,13 +11,13 @@ JudgeLib(c) ==
   /\ ps = Partition(c.s, c.e, c.iv, c.last)                  \* the model's expected list
   /\ (c.last <= 0 /\ c.iv # "once" /\ c.s <= c.e) => Covered(ps) = c.s .. c.e
   /\ \A k \in 1..Len(c.align) : AlignSpec(ps, c.align[k].d) = c.align[k].r
-  /\ \A k \in 1..Len(c.contains) : Contains(c.s, c.e, c.contains[k].d) = c.contains[k].r
+  /\ \A k \in 1..Len(c.contains) : SpanContains(c.s, c.e, c.contains[k].d) = c.contains[k].r
 
 \* CLI: window = (from,to) clipped to the journal's own period (jmin, jmax);
 \* the column headers must be the end dates of the expected partition.
 JudgeCli(c) ==
-  LET s == Max(c.from, c.jmin)
-      e == Min(c.to, c.jmax)
+  LET s == Max2(c.from, c.jmin)
+      e == Min2(c.to, c.jmax)
       ps == Partition(s, e, c.iv, c.last)
   IN /\ IsPartition(ps, s, e, c.iv, c.last)
      /\ c.cols = [k \in 1..Len(ps) |-> ps[k].e]
@@ -27,7 +27,7 @@ Judge(c) == IF c.kind = "lib" THEN JudgeLib(c) ELSE JudgeCli(c)
 Init == i = 1 /\ failed = << >>
 Next == /\ i <= Len(Cases)
         /\ i' = i + 1
-        /\ failed' = IF Judge(Cases[i]) THEN failed ELSE Append(failed, Cases[i].id)
+        /\ failed' = IF Judge(Cases[i]) THEN failed ELSE Append(failed, [id |-> Cases[i].id, why |-> "partition"])
 Spec == Init /\ [][Next]_<<i, failed>>
 Report == i <= Len(Cases) \/ PrintT("FAILED " \o ToJson(failed))
 =============================================================================
